@@ -140,6 +140,8 @@ class Story:
             return await s.transaction_id_from_pos(arg[0], arg[1], True)
         if what == 'header_proof':
             return await s.block_header(arg[0], arg[1])
+        if what == 'headers_proof':
+            return await s.block_headers(arg[0], arg[1], arg[2])
         raise ValueError(what)
 
     # -- running -----------------------------------------------------------------------------------
